@@ -6,6 +6,9 @@ thread_local! {
 }
 
 pub fn silence_panics() {
+    if std::env::var("FV_VERBOSE_PANIC").is_ok() {
+        return;
+    }
     std::panic::set_hook(Box::new(|info| {
         let file = info
             .location()
